@@ -30,6 +30,9 @@ pub struct ProcSpec {
     /// stdout and stderr share one open file description (append mode), so
     /// the file's byte order is the order of the write syscalls
     pub shared_out_err: bool,
+    /// start the binary in a working directory that no longer exists (made,
+    /// entered and removed by a /bin/sh wrapper that then execs the binary)
+    pub removed_cwd: bool,
 }
 
 #[derive(Clone, Debug, PartialEq, Eq)]
@@ -140,7 +143,15 @@ pub fn run(spec: &ProcSpec, scratch: &Scratch, tag: &str) -> Result<ProcResult, 
     let bin = rrss_bin();
     let out_path = scratch.path.join(format!("{}.out", tag));
     let err_path = scratch.path.join(format!("{}.err", tag));
-    let mut cmd = Command::new(&bin);
+    let mut cmd = if spec.removed_cwd {
+        let mut c = Command::new("/bin/sh");
+        c.arg("-c")
+            .arg("mkdir gone.$$ && cd gone.$$ && rmdir ../gone.$$ && exec \"$0\" \"$@\"")
+            .arg(&bin);
+        c
+    } else {
+        Command::new(&bin)
+    };
     cmd.args(&spec.args).env_clear().current_dir(&spec.cwd);
     for (k, v) in &spec.env {
         cmd.env(k, v);
